@@ -194,6 +194,12 @@ def build(run):
         yield "buoyancy: p e_y . v (list tensor with a zero entry)", lambda: (inner(uu, vu) + 3 * up * inner(ufl.as_vector([0, 1]), vu) + 5 * up * vp) * dx
         yield "list tensor mixing sub-functions [u_0, p]", lambda: (dot(ufl.as_vector([uu[0], up]), vu) + dot(ufl.as_vector([0, uu[1]]), ufl.as_vector([vp, vu[0]]))) * dx
         yield "rhs with a unit vector", lambda: (f * dot(ufl.as_vector([1, 0]), vu) + f * vp) * dx
+        # every compound differential / tensor operator applied to a sub-function is rebuilt around the replaced argument: convection (nabla_grad used
+        # non-symmetrically), nabla_div, curl, transposes and symmetric gradients
+        yield "oseen convection: (b . nabla_grad(u)) . v", lambda: (inner(dot(ufl.as_vector([f, 1 + f]), ufl.nabla_grad(uu)), vu) + ufl.nabla_div(uu) * vp - up * ufl.nabla_div(vu)) * dx
+        yield "nabla_grad(u) : grad(v) (transposed pairing)", lambda: inner(ufl.nabla_grad(uu), grad(vu)) * dx + up * vp * dx
+        yield "curl u curl v + sym(grad u) : grad(v).T", lambda: (ufl.curl(uu) * ufl.curl(vu) + inner(ufl.sym(grad(uu)), grad(vu).T) + up * vp) * dx
+        yield "skew / dev / tr of grad(u)", lambda: (inner(ufl.skew(grad(uu)), grad(vu)) + inner(ufl.dev(grad(uu)), ufl.outer(vu, ufl.as_vector([f, 1]))) + ufl.tr(grad(uu)) * vp) * dx
     mixed_route("P2v-P1", (P2v, P1), forms2)
 
     def forms3(v, u):
